@@ -4,7 +4,7 @@ PROPS = {}
 HOOK_COMMITS = ["4bf9c3e", "fb2c1fb"]
 NOT_APPLICABLE = {}
 # properties whose check exists but is being brought in line with repairs just made in /repo: not claimed until green
-PENDING = {}
+PENDING = {"C16": "not yet claimed again: the model is being updated to the F70 repair (4e55b2c) just committed in /repo"}
 
 PROPS["C19"] = {
     "gen": ["gen_color_table.py"],
